@@ -20,3 +20,73 @@ package engine
 //@ func NewChangelog() (cl)
 //@   trusted allocates two go-intervals sets (dependency state, not modelled)
 //@   assigns nothing
+
+// ---- matchers (C01, C02, C04) -------------------------------------------------------------------
+//
+// MatchOK(m, got, d, r) / MatchD(m, got, d, r) are the meaning of a compiled
+// matcher m (spec/tree.spec). The interface contract says Match computes them;
+// every implementation unfolds the defining equation of its own kind (taken
+// from the property statement) and is verified against the interface contract.
+
+//@ iface Matcher.Match(got, d, r) (d1, ok)
+//@   requires d != nil
+//@   ensures [C01] decides-instance: ok == MatchOK(self, got, d, r)
+//@   ensures [C01,C02] binds: ok ==> d1 == MatchD(self, got, d, r)
+//@   ensures [C02] never-rebinds: ok ==> keepsBindings(d, d1)
+//@   ensures d1 != nil
+//@   assigns nothing
+
+// A slice pattern without elision: same length, element-wise instances, data threaded left to right.
+//@ func (m SliceMatcher) Match(got, d, r) (d1, ok)
+//@   unfold MatchOK(boxed(m), got, d, r) == (kind(got) == 23 && len(m.Items) == rlen(got) && forall i int {m.Items[i]} :: 0 <= i && i < len(m.Items) ==> MatchOK(m.Items[i], idx(got, i), thrIdx(m.Items, got, d, r, i), r))
+//@   unfold MatchD(boxed(m), got, d, r) == thrIdx(m.Items, got, d, r, len(m.Items))
+//@   unfold thrIdx(m.Items, got, d, r, 0) == d
+//@   requires forall i int {m.Items[i]} :: 0 <= i && i < len(m.Items) ==> m.Items[i] != nil
+//@   loop 0
+//@     unfold thrIdx(m.Items, got, d0, r, #k + 1) == MatchD(m.Items[#k], idx(got, #k), thrIdx(m.Items, got, d0, r, #k), r)
+//@     invariant d != nil
+//@     invariant d == thrIdx(m.Items, got, d0, r, #k)
+//@     invariant forall i int {m.Items[i]} :: 0 <= i && i < #k ==> MatchOK(m.Items[i], idx(got, i), thrIdx(m.Items, got, d0, r, i), r)
+//@     invariant keepsBindings(d0, d)
+
+// A struct pattern: same struct type, every field an instance, data threaded in field order.
+//@ func (m StructMatcher) Match(got, d, r) (d1, ok)
+//@   unfold MatchOK(boxed(m), got, d, r) == (m.Type == rtype(got) && forall i int {m.Fields[i]} :: 0 <= i && i < len(m.Fields) ==> MatchOK(m.Fields[i], fld(got, i), thrFld(m.Fields, got, d, r, i), r))
+//@   unfold MatchD(boxed(m), got, d, r) == thrFld(m.Fields, got, d, r, len(m.Fields))
+//@   unfold thrFld(m.Fields, got, d, r, 0) == d
+//@   requires forall i int {m.Fields[i]} :: 0 <= i && i < len(m.Fields) ==> m.Fields[i] != nil
+//@   loop 0
+//@     unfold thrFld(m.Fields, got, d0, r, #k + 1) == MatchD(m.Fields[#k], fld(got, #k), thrFld(m.Fields, got, d0, r, #k), r)
+//@     invariant d != nil
+//@     invariant d == thrFld(m.Fields, got, d0, r, #k)
+//@     invariant forall i int {m.Fields[i]} :: 0 <= i && i < #k ==> MatchOK(m.Fields[i], fld(got, i), thrFld(m.Fields, got, d0, r, i), r)
+//@     invariant keepsBindings(d0, d)
+
+// A non-nil pointer pattern matches only non-nil pointers whose target is an instance.
+//@ func (m PtrMatcher) Match(got, d, r) (d1, ok)
+//@   requires m.Matcher != nil
+//@   unfold MatchOK(boxed(m), got, d, r) == (kind(got) == 22 && !risnil(got) && MatchOK(m.Matcher, relem(got), d, r))
+//@   unfold MatchD(boxed(m), got, d, r) == MatchD(m.Matcher, relem(got), d, r)
+
+// A non-nil interface pattern matches only non-nil interfaces whose dynamic value is an instance.
+//@ func (m InterfaceMatcher) Match(got, d, r) (d1, ok)
+//@   requires m.Matcher != nil
+//@   unfold MatchOK(boxed(m), got, d, r) == (kind(got) == 20 && !risnil(got) && MatchOK(m.Matcher, relem(got), d, r))
+//@   unfold MatchD(boxed(m), got, d, r) == MatchD(m.Matcher, relem(got), d, r)
+
+// A scalar (operator, literal text, name, channel direction, ...) matches only the identical scalar of the same type.
+//@ func (m ValueMatcher) Match(got, d, r) (d1, ok)
+//@   unfold MatchOK(boxed(m), got, d, r) == (m.Type == rtype(got) && m.Value == rvIface(got))
+//@   unfold MatchD(boxed(m), got, d, r) == d
+
+// An AST node narrows the region to the node itself and otherwise defers to the wrapped matcher.
+//@ func (m GenericNodeMatcher) Match(got, d, r) (d1, ok)
+//@   requires m.Matcher != nil
+//@   requires typing: !risnil(got) ==> implements(rvIface(got), "go/ast.Node")
+//@   unfold MatchOK(boxed(m), got, d, r) == MatchOK(m.Matcher, got, d, ite(risnil(got), r, nodeRegionOf(rvIface(got))))
+//@   unfold MatchD(boxed(m), got, d, r) == MatchD(m.Matcher, got, d, ite(risnil(got), r, nodeRegionOf(rvIface(got))))
+
+//@ func nodeRegion(n) (r)
+//@   requires n != nil
+//@   ensures r == nodeRegionOf(n)
+//@   assigns nothing
